@@ -1282,6 +1282,25 @@ def b_validator_methods(S):
     return out
 
 
+def b_grid_sampling(S):
+    """`run_grid_sampling`: empty trace frame -> empty result; a precursor grid is copied and used as is (TypeError when it is not a frame); otherwise the
+    cell width must be a positive number not close to zero (ValueError) and the grid is created over the BRANCHES when there are any, else over the traces;
+    then the cells are sampled."""
+    src = S[GRID]
+    C = {"traces.empty": "(List.isEmpty traces)", "gpd.GeoDataFrame()": "empty_result", "isinstance(precursor_grid, gpd.GeoDataFrame)": "(is_frame precursor_grid)",
+         "precursor_grid.copy()": "(precursor_grid.getD dflt)", "np.isclose(cell_width, 0.0)": "(isclose0 cell_width)", "branches.shape[0]": "(List.length branches)",
+         "create_grid(cell_width, lines=lines)": "(create_grid_ cell_width lines)",
+         "sample_grid(grid, traces, nodes, branches=branches, snap_threshold=snap_threshold, resolve_branches_and_nodes=resolve_branches_and_nodes)": "(sample_ grid)"}
+    T = {"traces.empty": "Bool", "gpd.GeoDataFrame()": "R", "isinstance(precursor_grid, gpd.GeoDataFrame)": "Bool", "precursor_grid.copy()": "Gr", "grid": "Gr",
+         "np.isclose(cell_width, 0.0)": "Bool", "branches.shape[0]": "Nat", "is_topology_defined": "Bool", "lines": "List L", "create_grid(cell_width, lines=lines)": "Gr",
+         "sample_grid(grid, traces, nodes, branches=branches, snap_threshold=snap_threshold, resolve_branches_and_nodes=resolve_branches_and_nodes)": "R", "sampled_grid": "R"}
+    return translate_function(
+        src, "run_grid_sampling", "run_grid_sampling", {"traces": "List L", "branches": "List L", "cell_width": "Rat", "precursor_grid": "Option Gr"}, "R", C, types=T, raises=True,
+        extra_params=[("{L}", "Type"), ("{Gr}", "Type"), ("{R}", "Type"), ("empty_result", "R"), ("is_frame", "Option Gr → Bool"), ("dflt", "Gr"), ("isclose0", "Rat → Bool"),
+                      ("create_grid_", "Rat → List L → Gr"), ("sample_", "Gr → R")],
+        slice_from="if traces.empty", default_num="Rat", join="tuple")
+
+
 def b_determine_intersect(S):
     """`determine_intersect`: which ordered pair of sets an X/Y node between two sets is recorded under, or ValueError"""
     fn = find_func(ast.parse(S[REL]), "determine_intersect")
@@ -1955,6 +1974,7 @@ ITEMS: List[Item] = [
     Item("CacheDecorated", GENERAL, ["C17"], b_cache_decorated, extra_modules=[m for m in ALL_MODULES if m != GENERAL]),
     Item("Grid", GRID, ["C18"], b_grid),
     Item("GridLoops", GRID, ["C18"], b_grid_loops),
+    Item("GridSampling", GRID, ["C18"], b_grid_sampling),
     Item("IndexMargins", GENERAL, ["C16"], b_index_margins, extra_modules=[PROX]),
     Item("Cli", CLI, ["C19"], b_cli),
     Item("DetermineIntersect", REL, ["C12"], b_determine_intersect),
